@@ -101,9 +101,11 @@ pub enum Sym {
 }
 
 pub fn alphabet(tier: Tier) -> Vec<Sym> {
-    let mut v = vec![Sym::ComputeBudget, Sym::InitRecordFresh, Sym::KaminoRefresh, Sym::Start(0), Sym::Start(1), Sym::End(0), Sym::End(1), Sym::WithdrawSmall(0), Sym::RepayMid(0), Sym::WithdrawSmall(1), Sym::RepayMid(1), Sym::WithdrawBig(0), Sym::Deposit(0), Sym::Jupiter, Sym::NotAllowedProgram, Sym::ShortAllowed, Sym::StartViaCpi(0), Sym::EndViaCpi(0), Sym::WithdrawViaCpi(0)];
+    let mut v = vec![Sym::ComputeBudget, Sym::InitRecordFresh, Sym::KaminoRefresh, Sym::Start(0), Sym::Start(1), Sym::End(0), Sym::End(1), Sym::WithdrawSmall(0), Sym::RepayMid(0), Sym::WithdrawBig(0), Sym::Deposit(0), Sym::Jupiter, Sym::NotAllowedProgram, Sym::ShortAllowed, Sym::StartViaCpi(0), Sym::EndViaCpi(0), Sym::WithdrawViaCpi(0)];
     if tier == Tier::Thorough {
-        v.push(Sym::RepayViaCpi(0));
+        // (the quick tier has the second subject's start and end - a bracket closed for the wrong account - but leaves
+        // its withdraw and repay to the thorough tier)
+        v.extend([Sym::WithdrawSmall(1), Sym::RepayMid(1), Sym::RepayViaCpi(0)]);
     }
     v
 }
@@ -204,6 +206,23 @@ fn semantic_rules(sc: &Sc, pre: &Store, post: &Store, acct: &Pubkey, out: &mut V
     }
 }
 
+/// a third party's repayment inside a bracket is an ordinary repayment: every bank's liquidity vault takes in at least
+/// what the account's debt in that bank went down by (the token-less write-off is the risk admin's facility)
+fn repaid_in_tokens(sc: &Sc, pre: &Store, post: &Store, acct: &Pubkey, out: &mut Vec<(String, String)>) {
+    for b in &sc.w.banks {
+        let debt = |s: &Store| -> rf::Q {
+            let (a, bk) = (world::account(s, acct), world::bank(s, &b.key));
+            a.lending_account.balances.iter().filter(|x| x.active != 0 && x.bank_pk == b.key).map(|x| rf::q(x.liability_shares) * rf::q(bk.liability_share_value)).fold(rf::qzero(), |x, y| x + y)
+        };
+        let relieved = debt(pre) - debt(post);
+        let taken_in = rf::qi(world::token_amount(post, &b.lv) as i128 - world::token_amount(pre, &b.lv) as i128);
+        // (the same bracket may also have paid collateral out of this bank's vault: only banks the account owed count)
+        if relieved > rf::qone() && taken_in < relieved.clone() - rf::qone() && debt(pre) > rf::qzero() && !sc.w.banks.iter().any(|x| x.key == b.key && positions(pre, acct).iter().any(|(k, a_sh, _)| *k == b.key && *a_sh > 0)) {
+            out.push(("repaid_in_tokens".into(), format!("the account's debt in {} fell by {:.6} native units while the bank's liquidity vault took in {}", b.label, rf::qf64(&relieved), rf::qf64(&taken_in))));
+        }
+    }
+}
+
 fn markers_clear(sc: &Sc, s: &Store, out: &mut Vec<(String, String)>) {
     for u in &sc.w.users {
         let a = world::account(s, &u.account);
@@ -281,6 +300,7 @@ pub fn run_shape(sc: &Sc, list: &[Sym]) -> ShapeOut {
             viol.push(("bracket_shape".into(), format!("balances of {} were changed by a third party in a transaction that is not a well-formed bracket for it: {why}", w.users[sc.subj[x as usize]].label)));
         }
         semantic_rules(sc, &sc.s, &post, &acct, &mut viol);
+        repaid_in_tokens(sc, &sc.s, &post, &acct, &mut viol);
     }
     let found = viol.into_iter().map(|(c, d)| Found { clause: format!("C10.{c}"), sig: format!("{:?}", list), detail: format!("{:?}: {d}", list), replay: rep.clone() }).collect();
     ShapeOut { committed: true, class: format!("committed:{}", if controlled > 0 { "took_control" } else { "no_control" }), found }
@@ -309,7 +329,7 @@ pub fn shapes(alpha: &[Sym], max_len: usize) -> Vec<Vec<Sym>> {
 fn grid(tier: Tier, classes: &mut BTreeMap<String, u64>, found: &mut Vec<Found>) -> u64 {
     let mut cells = 0u64;
     // (collateral $, debt $): standard; assets >= $5 but net equity < $5; assets just under / over $5
-    let portfolios: Vec<(&str, f64, f64)> = vec![("std", 1000.0, 860.0), ("thin_equity", 100.0, 96.0), ("assets_4.99", 4.99, 4.5), ("assets_5.01", 5.01, 4.5), ("deep", 1000.0, 2000.0), ("std_reduce_only", 1000.0, 860.0)];
+    let portfolios: Vec<(&str, f64, f64)> = vec![("std", 1000.0, 860.0), ("thin_equity", 100.0, 96.0), ("assets_4.99", 4.99, 4.5), ("assets_5.01", 5.01, 4.5), ("deep", 1000.0, 2000.0), ("std_reduce_only", 1000.0, 860.0), ("std_debt_bank_tokenless", 1000.0, 860.0), ("assets_4.99_debt_bank_tokenless", 4.99, 4.5)];
     let fees: Vec<f64> = if tier == Tier::Quick { vec![0.0, 0.10] } else { vec![0.0, 0.05, 0.10, 0.25] };
     for (fi, fee) in fees.iter().enumerate() {
         for (pi, (pname, coll, debt)) in portfolios.iter().enumerate() {
@@ -319,6 +339,14 @@ fn grid(tier: Tier, classes: &mut BTreeMap<String, u64>, found: &mut Vec<Found>)
                 // collateral still counts in full for maintenance health and for the seized-vs-repaid comparison
                 let k = sc.w.banks[0].key;
                 crate::world::edit_bank(&mut sc.s, &k, |b| b.config.operational_state = marginfi_type_crate::types::BankOperationalState::ReduceOnly);
+            }
+            if pname.ends_with("tokenless") {
+                // the debt bank is being wound down: reduce-only and flagged for the risk admin's token-less repayments
+                let k = sc.w.banks[1].key;
+                crate::world::edit_bank(&mut sc.s, &k, |b| {
+                    b.config.operational_state = marginfi_type_crate::types::BankOperationalState::ReduceOnly;
+                    b.flags |= marginfi_type_crate::constants::TOKENLESS_REPAYMENTS_ALLOWED;
+                });
             }
             let w = &sc.w;
             let acct = w.users[0].account;
@@ -382,6 +410,7 @@ fn grid(tier: Tier, classes: &mut BTreeMap<String, u64>, found: &mut Vec<Found>)
                         let mut viol = vec![];
                         markers_clear(&sc, &post, &mut viol);
                         semantic_rules(&sc, &sc.s, &post, &acct, &mut viol);
+                        repaid_in_tokens(&sc, &sc.s, &post, &acct, &mut viol);
                         for (c, d) in viol {
                             found.push(Found { clause: format!("C10.{c}"), sig: format!("grid:{pname}:fee{fee}"), detail: format!("portfolio {pname} (collateral ${coll}, debt ${debt}), max fee {fee}, withdraw {wf} / repay {rfr} of the position: {d}"), replay: rep.clone() });
                         }
